@@ -258,6 +258,93 @@ def classify(case, o):
     return None
 
 
+# ---- C: other uses of a snapshot that holds user-controlled parts: never compared, membership, sub-snapshots in loops
+def gen_usage(rng, i):
+    kind = ["never", "in", "getitem_loop", "never"][i % 4]
+    g = G(rng, agree=True)
+    flags = tuple(rng.choice(proggen.flag_subsets()))
+    if kind == "never":
+        old, _obs = g.build(0)
+        if not g.snips:                       # make sure there is something to protect
+            old = "[" + old + ", " + g.unmanaged(("str", "ab")) + ", " + g.unmanaged(("int", 3)) + ", 1+1]"
+        body = f"S = snapshot({old})\n\n\ndef test_a():\n    pass\n"
+        allowed = set()                       # no comparison: nothing may ever be removed
+    elif kind == "in":
+        elts, tested = [], []
+        for _ in range(rng.randint(2, 5)):
+            v = g.leaf()
+            if rng.random() < 0.5:
+                u = g.unmanaged(v)
+                while u.startswith("snapshot("):      # an inner snapshot is compared with every tested value and repairs ITSELF: not a part the parent must keep
+                    g.snips.pop()
+                    u = g.unmanaged(v)
+                elts.append(u)
+            else:
+                elts.append(render_atom(v[1], rng.random() < 0.5) if v[0] == "int" else valgen.render(v))
+            if rng.random() < 0.6:
+                tested.append(v)
+        if rng.random() < 0.4:
+            tested.append(("int", 77))      # a value the list lacks (fix)
+        if not tested:
+            tested.append(("int", 78))
+        lines = "".join(f"    R.append({valgen.render(t)} in s)\n" for t in tested)
+        body = f"R = []\n\n\ndef test_a():\n    s = snapshot([{', '.join(elts)}])\n{lines}"
+        allowed = {"trim"}                    # an element that is never tested may be trimmed as a whole
+    else:
+        n = rng.randint(2, 3)
+        other = rng.choice(["1+1", "2", "'x'", "Is(K)"])
+        body = (f"K = 5\n\n\ndef test_a():\n    for i in range({n}):\n        s = snapshot({{'a': Is(i), 'b': {other}}})\n"
+                f"        assert s['a'] == i\n")
+        g.snips.append("Is(i)")
+        if other == "Is(K)":
+            g.snips.append("Is(K)")
+        allowed = {"trim"}
+    varlines = "".join(f"{n} = {v}\n" for n, v in g.vars)
+    return {"source": HEADER + varlines + "\n" + body, "snips": g.snips, "flags": flags, "usage": kind, "allowed": sorted(allowed)}
+
+
+def first_snapshot_arg(src):
+    tree = ast.parse(src)
+    calls = [n for n in ast.walk(tree) if isinstance(n, ast.Call) and isinstance(n.func, ast.Name) and n.func.id == "snapshot"]
+    calls.sort(key=lambda n: (n.lineno, n.col_offset))
+    c = calls[0]
+    return ast.get_source_segment(src, c.args[0]) if c.args else ""
+
+
+def run_usage(case):
+    r = driver.run_inproc({"test_a.py": case["source"]}, case["flags"], block_black=True)
+    out = {"session_exc": r["session_exc"], "module_exc": r["module_exc"], "tests": [(t[1], t[2][:300]) for t in r["tests"]]}
+    after = r["files"]["test_a.py"].decode("utf-8", "replace")
+    out["after"] = after
+    try:
+        out["arg"] = first_snapshot_arg(after)
+        out["old"] = first_snapshot_arg(case["source"])
+    except Exception as e:  # noqa
+        out["error"] = f"{type(e).__name__}: {e}"
+    return out
+
+
+def judge_usage(case, o):
+    if o["module_exc"]:
+        return f"module raised {o['module_exc']}"
+    if o["session_exc"]:
+        return f"session phase raised {o['session_exc']}"
+    if "error" in o:
+        return f"rewritten file unusable: {o['error']}"
+    if case["usage"] == "getitem_loop":
+        bad = [t for t in o["tests"] if t[1] != "ok"]
+        if bad:
+            return f"a sub-snapshot holding Is(i), evaluated in a loop, makes the test fail: {bad[0][1]}"
+    F = set(case["flags"])
+    for s in case["snips"]:
+        before, after = count_occ(o["old"], s), count_occ(o["arg"], s)
+        if after > before:
+            return f"user-controlled expression {s} was duplicated ({case['usage']})"
+        if after < before and not (F & set(case["allowed"])):
+            return f"user-controlled expression {s} was rewritten or removed by {sorted(F)} in a snapshot used as `{case['usage']}`: {o['old']} -> {o['arg']}"
+    return None
+
+
 # ---- flat sequences with Is() elements vs Model/Unmanaged.v
 def gen_flat(rng):
     n = rng.choice([1, 2, 3, 4, 5])
@@ -318,6 +405,8 @@ def run(ctx: Ctx):
         "snapshot(), a declare_unmanaged class (stands in for dirty-equals, which is not installed), star-expressions; element inserted / deleted / changed around them; "
         "unmanaged parts agreeing or disagreeing with the observation; all approved sets: every user-controlled text occurs verbatim as often as before, or vanishes (only with "
         "fix approved); containers with star-expressions are not rewritten; with agreeing parts and create,fix the managed siblings are repaired (test passes disabled). "
+        "C: the same kinds of user-controlled parts inside snapshots that are never compared (module level), used with `in`, or used as sub-snapshots `s[k]` in a loop "
+        "(re-evaluation): texts survive every approved set (a never-tested `in` member may be trimmed as a whole) and the loop passes. "
         "non-trivial = at least one user-controlled part and one managed difference")
     proof_step(ctx)
     n = 400 if not ctx.thorough else 4000
@@ -355,6 +444,17 @@ def run(ctx: Ctx):
                        tag=classify(c, o))
     ctx.coverage["oracle"]["cases"] = m
     ctx.sample({"test": cases[0]["source"].split("def test_a")[1], "unmanaged": cases[0]["snips"], "after_arg": outs[0].get("arg")})
+    # C
+    mu = 240 if not ctx.thorough else 2400
+    ucases = [gen_usage(ctx.rng, i) for i in range(mu)]
+    uouts = pmap(run_usage, ucases, chunksize=8)
+    for c, o in zip(ucases, uouts):
+        ctx.count(("usage", c["source"], c["flags"]), bool(c["snips"]))
+        ctx.dist("C.usage=" + c["usage"])
+        why = judge_usage(c, o)
+        if why:
+            ctx.report("C10 oracle: " + why, {"kind": "usage", "case": c, "after_arg": o.get("arg")})
+    ctx.coverage["oracle"]["usage_cases"] = mu
 
 
 def replay(ctx: Ctx, data):
@@ -364,4 +464,9 @@ def replay(ctx: Ctx, data):
         o = run_case(case)
         print(o.get("arg"))
         return judge(case, o) is None
+    if c.get("kind") == "usage":
+        case = dict(c["case"], flags=tuple(c["case"]["flags"]))
+        o = run_usage(case)
+        print(o.get("old"), "->", o.get("arg"), o.get("tests"))
+        return judge_usage(case, o) is None
     return True
